@@ -64,6 +64,12 @@ def one_trace(tid, n, m, a, b, weighted, n_jobs, seed, probes):
         Xq = numpy.array([[x, 0]], dtype=dt)        # the query's dtype is the caller's business
         # the caller keeps every result while it goes on querying: they are read only after the last call
         raw.append((x, model.predict_all(Xq), model.predict(Xq), model.predict_sorted(Xq)))
+    # the hyper-parameter is changed without fitting again: the fitted models are still the m models of the last fit and
+    # predict is still their mean
+    model.set_params(n_estimators=m + 2)
+    Xq = numpy.array([[7, 0]], dtype=numpy.float64)
+    raw.append((7, model.predict_all(Xq), model.predict(Xq), model.predict_sorted(Xq)))
+    model.set_params(n_estimators=m)
     ok = lambda v: abs(v - round(v)) < 1e-6
     for x, al, pm, ps in raw:
         al, pm, ps = al[0] - 0.5, pm[0] * m - 0.5 * m, ps[0] - 0.5
